@@ -1038,6 +1038,8 @@ func (c *Ctx) checkCompactHeaderConstants(rule string) {
 		{"ReadFieldBegin", []string{"&:240", ">>:4", "&:15"}, "type in the low nibble, delta in the high nibble"},
 		{"writeCollectionBegin", []string{"<=:14", "<<:4", "|:240"}, "size <= 14 in the high nibble, 0xf0 announces a varint size"},
 		{"ReadListBegin", []string{">>:4", "&:15", "==:15"}, "size from the high nibble, 15 announces a varint size"},
+		{"WriteMessageBegin", []string{"<<:5", "&:224", "|:1", "arg:130"}, "protocol id 0x82; version 1 in the low five bits, message type in the high three"},
+		{"ReadMessageBegin", []string{"!=:130", "&:31", ">>:5", "&:7", "!=:1"}, "protocol id 0x82 required; version from the low five bits (must be 1), message type from the high three"},
 	} {
 		fn := c.fn(thriftPkg, "TCompactProtocol", sp.fn)
 		if fn == nil {
@@ -1048,6 +1050,16 @@ func (c *Ctx) checkCompactHeaderConstants(rule string) {
 		key := c.fnKey(fn)
 		c.sawFunc(key)
 		have := intConstsOf(fn)
+		// constant arguments of calls (the protocol id byte)
+		instrsOf(fn, func(in ssa.Instruction) {
+			if call, ok := in.(*ssa.Call); ok {
+				for _, a := range call.Call.Args {
+					if k, isK := constInt(a); isK {
+						have[fmt.Sprintf("arg:%d", k)] = true
+					}
+				}
+			}
+		})
 		var missing []string
 		for _, k := range sp.need {
 			if !have[k] {
